@@ -35,7 +35,7 @@ type Form struct {
 }
 
 func constForm(k int64) Form { return Form{K: k} }
-func symForm(s Sym) Form    { return Form{C: map[Sym]int64{s: 1}} }
+func symForm(s Sym) Form     { return Form{C: map[Sym]int64{s: 1}} }
 
 func (f Form) isConst() bool { return len(f.C) == 0 }
 
